@@ -696,7 +696,17 @@ fn build_catalogue() -> Vec<Op> {
     int_text(&mut v);
     int_convert(&mut v);
     int_modular(&mut v);
+    float_ops::<mode::Zero, 2>(&mut v);
+    float_ops::<mode::HalfEven, 2>(&mut v);
+    float_ops::<mode::HalfAway, 10>(&mut v);
+    float_ops::<mode::Up, 10>(&mut v);
+    float_b2::<mode::Zero>(&mut v);
+    float_b2::<mode::HalfEven>(&mut v);
+    float_b2_repr(&mut v);
     //CATALOGUE-CALLS
+    // entries on Repr<B> do not depend on the rounding mode: keep the first of each
+    let mut seen = std::collections::HashSet::new();
+    v.retain(|o| !o.name.contains("Repr<") || seen.insert(o.name.clone()));
     v
 }
 
@@ -1181,7 +1191,7 @@ fn ring0(c: &Case) -> Pre {
 
 /// `x ∘ y` with both operands reduced into the same ring (modulus c)
 macro_rules! mod_bin {
-    ($v:ident, $op:tt, $opa:tt, |$d:ident| $pre:expr) => {
+    ($v:ident, $op:tt, $opa:tt, |$d:ident| $pre:expr, |$e:ident| $pre2:expr) => {
         const F: &str = "int: modular arithmetic";
         const U: Uses = U0.a(2).b(2).c(1);
         entry!($v, "int", F, 0, format!("Reduced {} Reduced val.val", stringify!($op)), U, |c| { let r = ConstDivisor::new(c.uc()); let (x, y) = (r.reduce(c.ia()), r.reduce(c.ib())); (x $op y).residue() }, |$d| $pre);
@@ -1193,10 +1203,14 @@ macro_rules! mod_bin {
         // operands from two different rings (moduli c and d): documented panic
         const U2: Uses = U0.a(2).b(2).c(1).d(1);
         entry!($v, "int", F, 0, format!("Reduced {} Reduced (different rings)", stringify!($op)), U2, |c| { let (r, s) = (ConstDivisor::new(c.uc()), ConstDivisor::new(c.ud())); let (x, y) = (r.reduce(c.ia()), s.reduce(c.ib())); (x $op y).residue() },
-            |d| Pre::new().must(d.c.is_zero() || d.d.is_zero(), L_DIV0, M_DIV0).must(true, L_RINGS, M_RINGS).done());
+            |$e| $pre2);
         entry!($v, "int", F, 0, format!("Reduced {} &Reduced (different rings)", stringify!($opa)), U2, |c| { let (r, s) = (ConstDivisor::new(c.uc()), ConstDivisor::new(c.ud())); let (mut x, y) = (r.reduce(c.ia()), s.reduce(c.ib())); x $opa &y; x.residue() },
-            |d| Pre::new().must(d.c.is_zero() || d.d.is_zero(), L_DIV0, M_DIV0).must(true, L_RINGS, M_RINGS).done());
+            |$e| $pre2);
     };
+}
+
+fn rings2(c: &Case) -> Pre {
+    Pre::new().must(c.c.is_zero() || c.d.is_zero(), L_DIV0, M_DIV0).must(true, L_RINGS, M_RINGS)
 }
 
 fn div_pre(d: &Case) -> Exp {
@@ -1209,16 +1223,25 @@ fn div_pre(d: &Case) -> Exp {
 
 fn int_modular(v: &mut Vec<Op>) {
     {
-        mod_bin!(v, +, +=, |d| ring0(d).done());
+        mod_bin!(v, +, +=, |d| ring0(d).done(), |e| rings2(e).done());
     }
     {
-        mod_bin!(v, -, -=, |d| ring0(d).done());
+        mod_bin!(v, -, -=, |d| ring0(d).done(), |e| rings2(e).done());
     }
     {
-        mod_bin!(v, *, *=, |d| ring0(d).done());
+        mod_bin!(v, *, *=, |d| ring0(d).done(), |e| rings2(e).done());
     }
     {
-        mod_bin!(v, /, /=, |d| div_pre(d));
+        mod_bin!(v, /, /=, |d| div_pre(d), |e| {
+            // the divisor is inverted in its own ring (modulus d) before the rings are compared
+            let m = e.d.mag.big();
+            let p = rings2(e);
+            if m.is_zero() || e.c.is_zero() {
+                p.done()
+            } else {
+                p.unspec(m.is_one_(), "unspecified: division in the ring of integers modulo 1").must(!invertible(&e.b, &m), L_NONINV, M_NONINV).done()
+            }
+        });
     }
     const F: &str = "int: modular arithmetic";
     const U: Uses = U0.a(2).c(1);
@@ -1237,6 +1260,515 @@ fn int_modular(v: &mut Vec<Op>) {
         |d| Pre::new().must(d.c.is_zero() || d.d.is_zero(), L_DIV0, M_DIV0).must(true, L_RINGS, M_RINGS).done());
     entry!(v, "int", F, 0, "Reduced clone/clone_from", U0.a(2).b(2).c(1), |c| { let r = ConstDivisor::new(c.uc()); let mut x = r.reduce(c.ia()).clone(); x.clone_from(&r.reduce(c.ib())); x.residue() }, |d| ring0(d).done());
     fmt_entries!(v, "int", F, 0, "Reduced", U, |c| ConstDivisor::new(c.uc()).reduce(c.ia()), |d| ring0(d).done(), "{}" "{:?}" "{:#?}" "{:b}" "{:o}" "{:#x}" "{:X}" "{:>60}");
+}
+
+// ------------------------------------------------------------------------------------------------
+// dashu-float
+// ------------------------------------------------------------------------------------------------
+
+const L_EXT: &str = "unspecified: exponent near the isize limits (overflow / underflow panics are documented)";
+const L_FAR: &str = "unspecified: |exponent| > 2^20, the digits would not fit memory";
+const L_INFU: &str = "unspecified: non-arithmetic operation on an infinity";
+
+fn any_extreme(v: &[&FV]) -> bool {
+    v.iter().any(|f| f.extreme())
+}
+fn any_far(v: &[&FV]) -> bool {
+    v.iter().any(|f| f.far())
+}
+fn any_inf(v: &[&FV]) -> bool {
+    v.iter().any(|f| f.inf != 0)
+}
+
+/// is x / y (both finite, y != 0) a finite base-B fraction?
+fn quotient_exact(x: &FV, y: &FV, base: u64) -> bool {
+    if x.zero {
+        return true;
+    }
+    let n = x.sci.n.magnitude().clone();
+    let mut d = y.sci.n.magnitude().clone();
+    let g = n.gcd(&d);
+    d /= g;
+    let b = BigUint::from(base);
+    loop {
+        let g = d.gcd(&b);
+        if g.is_one_() {
+            break;
+        }
+        d /= g;
+    }
+    d.is_one_()
+}
+
+/// precision of the result context of a binary FBig operator: Context::max = numeric maximum
+fn ctx_max(x: &FV, y: &FV) -> u64 {
+    x.prec.max(y.prec)
+}
+
+/// + - * of two floats under a context of precision `p`
+fn pre_arith(x: &FV, y: &FV, p: u64, additive: bool) -> Exp {
+    let gap = (x.exp as i128 - y.exp as i128).unsigned_abs();
+    Pre::new()
+        .unspec(any_extreme(&[x, y]), L_EXT)
+        .must(any_inf(&[x, y]), L_INF, M_INF)
+        .unspec(additive && p == 0 && !x.zero && !y.zero && x.finite() && y.finite() && gap > (1 << 20), L_FAR)
+        .heavy(additive && p == 0 && gap > 4096)
+        .done()
+}
+
+fn pre_div(x: &FV, y: &FV, p: u64, base: u64) -> Exp {
+    let fin = x.finite() && y.finite();
+    Pre::new()
+        .unspec(any_extreme(&[x, y]), L_EXT)
+        .must(any_inf(&[x, y]), L_INF, M_INF)
+        .must(fin && y.zero, L_DIV0, "")
+        .unspec(fin && !y.zero && p == 0 && !any_far(&[x, y]) && quotient_exact(x, y, base), "unspecified: exact quotient at unlimited precision")
+        .unspec(fin && !y.zero && p == 0 && any_far(&[x, y]), L_FAR)
+        .must(fin && p == 0, L_UNLIM, M_UNLIM)
+        .done()
+}
+
+/// % and the Euclidean forms align the operands as integers
+fn pre_rem(x: &FV, y: &FV) -> Exp {
+    let gap = (x.exp as i128 - y.exp as i128).unsigned_abs();
+    Pre::new()
+        .unspec(any_extreme(&[x, y]), L_EXT)
+        .must(any_inf(&[x, y]), L_INF, M_INF)
+        .must(x.finite() && y.finite() && y.zero, L_DIV0, "")
+        .unspec(x.finite() && y.finite() && !x.zero && !y.zero && gap > (1 << 20), L_FAR)
+        .heavy(gap > 4096)
+        .done()
+}
+
+const KF_EUCLID: &str = "C16/float-euclid-infinity-unchecked";
+
+/// div_euclid / rem_euclid / div_rem_euclid: as `%`
+fn pre_euclid(x: &FV, y: &FV) -> Exp {
+    let mut e = pre_rem(x, y);
+    if any_inf(&[x, y]) {
+        e.known.push(KnownSpec { id: KF_EUCLID, on: On::Returns });
+        e.known.push(KnownSpec { id: KF_EUCLID, on: On::Panic("divisor must not be 0") });
+    }
+    e
+}
+
+/// functions of one argument that need a limited precision whenever the result is inexact
+fn pre_unlim1(x: &FV, p: u64, exact: bool) -> Pre {
+    Pre::new().unspec(x.extreme(), L_EXT).must(x.inf != 0, L_INF, M_INF).unspec(x.finite() && p == 0 && exact, "unspecified: exact result at unlimited precision").must(x.finite() && p == 0 && !exact, L_UNLIM, M_UNLIM)
+}
+
+fn pre_sqrt(x: &FV, p: u64) -> Exp {
+    // exact iff the value is a perfect square; deciding that is not needed: at unlimited precision the
+    // rustdoc of Context::sqrt promises a panic regardless
+    Pre::new().unspec(x.extreme(), L_EXT).must(x.inf != 0, L_INF, M_INF).must(x.finite() && p == 0, L_UNLIM, M_UNLIM).must(x.finite() && x.neg && !x.zero, L_ROOTNEG, M_ROOTNEG).done()
+}
+
+/// |x| so large that B^(x / ln B) overflows the exponent: certainly when |x| >= 2^70; certainly
+/// not when |x| <= 2^55
+fn exp_class(x: &FV) -> u8 {
+    if x.zero || !x.finite() {
+        return 0;
+    }
+    let top = (x.exp as i128 + x.digits as i128) as f64 * (x.sci.base as f64).log2(); // |x| < 2^top
+    let bot = (x.exp as i128 + x.digits as i128 - 1) as f64 * (x.sci.base as f64).log2(); // |x| >= 2^bot
+    if bot >= 70.0 {
+        2
+    } else if top <= 55.0 {
+        0
+    } else {
+        1
+    }
+}
+
+fn pre_exp(x: &FV, p: u64) -> Exp {
+    let cls = exp_class(x);
+    pre_unlim1(x, p, x.zero)
+        .unspec(x.finite() && p != 0 && cls == 1, "unspecified: exp of an argument near the overflow threshold")
+        .must(x.finite() && p != 0 && cls == 2, L_OVER, "")
+        .heavy(x.finite() && !x.zero && x.exp as i128 + x.digits as i128 > 12)
+        .done()
+}
+
+const KF_LN: &str = "C16/float-ln-domain-unchecked";
+
+fn pre_ln(x: &FV, p: u64, one_plus: bool) -> Exp {
+    // domain: ln x needs x > 0, ln_1p x needs x > -1
+    let (at_pole, below) = if one_plus {
+        let c = if x.finite() { x.cmp_int(-1) } else { Ordering::Greater };
+        (c == Ordering::Equal, c == Ordering::Less)
+    } else {
+        (x.finite() && x.zero, x.finite() && x.neg && !x.zero)
+    };
+    let trivial = if one_plus { x.zero } else { x.finite() && x.cmp_int(1) == Ordering::Equal };
+    pre_unlim1(x, p, trivial)
+        .must(at_pole || below, L_LOG, "")
+        .known((at_pole || below) && p != 0 && !x.extreme(), KF_LN, On::HangOrMem)
+        .unspec(x.far(), L_FAR)
+        .done()
+}
+
+fn pre_powi(x: &FV, e: &Int, p: u64) -> Exp {
+    let eb = e.mag.big().bits();
+    let big_result = p == 0 && !x.zero && x.finite() && (x.sig_words as u64 * 64).saturating_mul(if eb > 40 { u64::MAX } else { e.mag.0.first().copied().unwrap_or(0) }) > (1 << 22);
+    let huge_e = eb > 40;
+    Pre::new()
+        .unspec(x.extreme(), L_EXT)
+        .must(x.inf != 0, L_INF, M_INF)
+        .must(x.finite() && e.neg && !e.is_zero() && p == 0, L_UNLIM, M_UNLIM)
+        .must(x.finite() && x.zero && e.neg && !e.is_zero(), L_DIV0, "")
+        .unspec(x.finite() && !x.zero && (huge_e || x.far()), "unspecified: power whose exponent may overflow")
+        .unspec(big_result, "unspecified: exact power of more than 2^22 bits")
+        .heavy(big_result || huge_e || (p == 0 && eb > 12))
+        .done()
+}
+
+fn pre_powf(x: &FV, y: &FV, p: u64) -> Exp {
+    let fin = x.finite() && y.finite();
+    let y01 = fin && (y.zero || y.cmp_int(1) == Ordering::Equal);
+    let neg = x.finite() && x.neg && !x.zero;
+    let ybig = fin && !y.zero && y.exp as i128 + y.digits as i128 > 12;
+    Pre::new()
+        .unspec(any_extreme(&[x, y]), L_EXT)
+        .must(any_inf(&[x, y]), L_INF, M_INF)
+        .must(fin && p == 0, L_UNLIM, M_UNLIM)
+        .unspec(fin && neg && y01, "unspecified: negative base with exponent 0 or 1")
+        .unspec(fin && neg && !y01 && y.is_int(), "unspecified: negative base with an integer exponent")
+        .must(fin && neg && !y01 && !y.is_int(), L_POWNEG, M_POWNEG)
+        .must(fin && x.zero && y.neg && !y.zero, L_DIV0, "")
+        .unspec(fin && !x.zero && !y.zero && (any_far(&[x, y]) || ybig), "unspecified: power whose exponent may overflow")
+        .heavy(ybig)
+        .done()
+}
+
+/// trunc / fract / ceil / floor / round / to_int: documented to panic on infinities
+fn pre_round(x: &FV) -> Exp {
+    Pre::new().unspec(x.extreme(), L_EXT).must(x.inf != 0, L_INF, M_INF).unspec(x.far(), L_FAR).heavy(x.far()).done()
+}
+
+/// sign / precision / cloning ...: infinities are "only supposed to be used as sentinels"
+fn pre_passive(x: &FV) -> Exp {
+    Pre::new().unspec(x.inf != 0, L_INFU).done()
+}
+
+/// operations that have to materialise digits (printing, conversion to other types)
+fn pre_digits(x: &FV) -> Exp {
+    Pre::new().unspec(x.inf != 0, L_INFU).unspec(x.extreme(), L_EXT).unspec(x.far(), L_FAR).heavy(x.far()).done()
+}
+
+const KF_TINY: &str = "C08/with-base-tiny-precision-panics";
+const KF_WIDE: &str = "C08/convert-base-small-neg-exponent-long-significand";
+
+/// with_base::<NB>() / with_base_and_precision::<NB>(target): `target` = None for with_base
+fn pre_with_base(x: &FV, b: u64, nb: u64, target: Option<u64>) -> Exp {
+    let related = {
+        // one base is a power of the other
+        let (lo, hi) = (b.min(nb), b.max(nb));
+        let mut t = lo;
+        while t < hi {
+            t = t.saturating_mul(lo);
+        }
+        t == hi
+    };
+    // precision chosen by with_base: max k with NB^k <= B^p (0 stays 0)
+    let auto = |p: u64| -> u64 {
+        if p == 0 {
+            return 0;
+        }
+        let lim = bpow(b, p);
+        let mut k = 0u64;
+        let mut t = BigUint::from(1u8);
+        loop {
+            t *= nb;
+            if t > lim {
+                break;
+            }
+            k += 1;
+        }
+        k
+    };
+    let tp = match target {
+        Some(t) => t,
+        None => auto(x.prec),
+    };
+    // lossless iff the value is representable in base NB
+    let lossless = x.zero || !x.finite() || {
+        if x.exp >= 0 {
+            true
+        } else if x.far() {
+            false
+        } else {
+            // sig / B^|e| with all prime factors of the reduced denominator dividing NB
+            let mut d = bpow(b, x.exp.unsigned_abs());
+            let g = d.gcd(x.sci.n.magnitude());
+            d /= g;
+            let nbb = BigUint::from(nb);
+            loop {
+                let g = d.gcd(&nbb);
+                if g.is_one_() {
+                    break;
+                }
+                d /= g;
+            }
+            d.is_one_()
+        }
+    };
+    Pre::new()
+        .unspec(x.inf != 0, L_INFU)
+        .unspec(x.extreme(), L_EXT)
+        .unspec(x.far(), L_FAR)
+        .heavy(x.far())
+        .must(x.finite() && !related && tp == 0 && (target.is_some() || x.prec == 0) && !lossless, L_UNLIM, M_UNLIM)
+        .unspec(x.finite() && !related && tp == 0 && (target.is_some() || x.prec == 0) && lossless, "unspecified: lossless base conversion at unlimited precision")
+        .known(x.finite() && !related && target.is_none() && x.prec != 0 && tp == 0, KF_TINY, On::Panic("precision cannot be 0"))
+        .known(x.finite() && !related && !x.zero && (-38..0).contains(&x.exp), KF_WIDE, On::Panic("lhs.digits() <= self.precision + rhs.digits()"))
+        .done()
+}
+
+macro_rules! fentry {
+    ($v:ident, $fam:expr, $B:expr, $name:expr, $uses:expr, |$c:ident| $run:expr, |$d:ident| $pre:expr) => {
+        entry!($v, "float", $fam, $B as u64, $name, $uses, |$c| $run, |$d| $pre);
+    };
+}
+
+const FX: Uses = U0.x();
+const FXY: Uses = U0.x().y();
+const CX: Uses = U0.x().p();
+const CXY: Uses = U0.x().y().p();
+
+macro_rules! f_bin_forms {
+    ($v:ident, $fam:expr, $t:expr, $R:ty, $B:expr, $op:tt, $opa:tt, |$d:ident| $pre:expr) => {
+        fentry!($v, $fam, $B, format!("{} {} val.val", $t, stringify!($op)), FXY, |c| c.fx::<$R, $B>() $op c.fy::<$R, $B>(), |$d| $pre);
+        fentry!($v, $fam, $B, format!("{} {} val.ref", $t, stringify!($op)), FXY, |c| c.fx::<$R, $B>() $op &c.fy::<$R, $B>(), |$d| $pre);
+        fentry!($v, $fam, $B, format!("{} {} ref.val", $t, stringify!($op)), FXY, |c| &c.fx::<$R, $B>() $op c.fy::<$R, $B>(), |$d| $pre);
+        fentry!($v, $fam, $B, format!("{} {} ref.ref", $t, stringify!($op)), FXY, |c| &c.fx::<$R, $B>() $op &c.fy::<$R, $B>(), |$d| $pre);
+        fentry!($v, $fam, $B, format!("{} {} val", $t, stringify!($opa)), FXY, |c| { let mut x = c.fx::<$R, $B>(); x $opa c.fy::<$R, $B>(); x }, |$d| $pre);
+        fentry!($v, $fam, $B, format!("{} {} ref", $t, stringify!($opa)), FXY, |c| { let mut x = c.fx::<$R, $B>(); x $opa &c.fy::<$R, $B>(); x }, |$d| $pre);
+    };
+}
+
+/// FBig ∘ primitive / big integer operand (converted with FBig::from: precision = its digits)
+macro_rules! f_prim_forms {
+    ($v:ident, $t:expr, $R:ty, $B:expr, $pt:expr, $uses:expr, |$c:ident| $k:expr, |$e:ident| $kbig:expr) => {
+        const FP: &str = "float: FBig with primitive / integer operand";
+        fentry!($v, FP, $B, format!("{} + {}", $t, $pt), $uses, |$c| $c.fx::<$R, $B>() + $k, |$e| { let x = fv(&$e.x, $B as u64); let k = int_fv(&$kbig, $B as u64); pre_arith(&x, &k, ctx_max(&x, &k), true) });
+        fentry!($v, FP, $B, format!("{} + &{}", $pt, $t), $uses, |$c| $k + &$c.fx::<$R, $B>(), |$e| { let x = fv(&$e.x, $B as u64); let k = int_fv(&$kbig, $B as u64); pre_arith(&x, &k, ctx_max(&x, &k), true) });
+        fentry!($v, FP, $B, format!("{} -= {}", $t, $pt), $uses, |$c| { let mut x = $c.fx::<$R, $B>(); x -= $k; x }, |$e| { let x = fv(&$e.x, $B as u64); let k = int_fv(&$kbig, $B as u64); pre_arith(&x, &k, ctx_max(&x, &k), true) });
+        fentry!($v, FP, $B, format!("&{} * &{}", $t, $pt), $uses, |$c| &$c.fx::<$R, $B>() * &$k, |$e| { let x = fv(&$e.x, $B as u64); let k = int_fv(&$kbig, $B as u64); pre_arith(&x, &k, ctx_max(&x, &k), false) });
+        fentry!($v, FP, $B, format!("{} *= {}", $t, $pt), $uses, |$c| { let mut x = $c.fx::<$R, $B>(); x *= $k; x }, |$e| { let x = fv(&$e.x, $B as u64); let k = int_fv(&$kbig, $B as u64); pre_arith(&x, &k, ctx_max(&x, &k), false) });
+        fentry!($v, FP, $B, format!("{} / {}", $t, $pt), $uses, |$c| $c.fx::<$R, $B>() / $k, |$e| { let x = fv(&$e.x, $B as u64); let k = int_fv(&$kbig, $B as u64); pre_div(&x, &k, ctx_max(&x, &k), $B as u64) });
+        fentry!($v, FP, $B, format!("{} / {}", $pt, $t), $uses, |$c| $k / $c.fx::<$R, $B>(), |$e| { let x = fv(&$e.x, $B as u64); let k = int_fv(&$kbig, $B as u64); pre_div(&k, &x, ctx_max(&x, &k), $B as u64) });
+        fentry!($v, FP, $B, format!("{} /= &{}", $t, $pt), $uses, |$c| { let mut x = $c.fx::<$R, $B>(); x /= &$k; x }, |$e| { let x = fv(&$e.x, $B as u64); let k = int_fv(&$kbig, $B as u64); pre_div(&x, &k, ctx_max(&x, &k), $B as u64) });
+    };
+}
+
+/// an integer as a float operand: FBig::from(n) has precision = number of digits (0 for zero)
+fn int_fv(n: &BigInt, base: u64) -> FV {
+    let f = Flt { inf: 0, sig: Int::from_big(n), exp: 0, prec: 0 };
+    let mut v = fv(&f, base);
+    v.prec = dv::fl::digits(n.magnitude(), base);
+    v
+}
+
+fn float_ops<R: ModeTag, const B: Word>(v: &mut Vec<Op>) {
+    let t = format!("FBig<{},{}>", R::MODE.name(), B);
+    let ct = format!("Context<{}>/{}", R::MODE.name(), B);
+    let b = B as u64;
+    let _ = b;
+    const A: &str = "float: + - * (FBig operators)";
+    f_bin_forms!(v, A, t, R, B, +, +=, |d| { let (x, y) = (fv(&d.x, B as u64), fv(&d.y, B as u64)); pre_arith(&x, &y, ctx_max(&x, &y), true) });
+    f_bin_forms!(v, A, t, R, B, -, -=, |d| { let (x, y) = (fv(&d.x, B as u64), fv(&d.y, B as u64)); pre_arith(&x, &y, ctx_max(&x, &y), true) });
+    f_bin_forms!(v, A, t, R, B, *, *=, |d| { let (x, y) = (fv(&d.x, B as u64), fv(&d.y, B as u64)); pre_arith(&x, &y, ctx_max(&x, &y), false) });
+    const D: &str = "float: / % and Euclidean forms";
+    f_bin_forms!(v, D, t, R, B, /, /=, |d| { let (x, y) = (fv(&d.x, B as u64), fv(&d.y, B as u64)); pre_div(&x, &y, ctx_max(&x, &y), B as u64) });
+    f_bin_forms!(v, D, t, R, B, %, %=, |d| { let (x, y) = (fv(&d.x, B as u64), fv(&d.y, B as u64)); pre_rem(&x, &y) });
+    fentry!(v, D, B, format!("{t} div_euclid ref.ref"), FXY, |c| (&c.fx::<R, B>()).div_euclid(&c.fy::<R, B>()), |d| pre_euclid(&fv(&d.x, B as u64), &fv(&d.y, B as u64)));
+    fentry!(v, D, B, format!("{t} div_euclid val.val"), FXY, |c| c.fx::<R, B>().div_euclid(c.fy::<R, B>()), |d| pre_euclid(&fv(&d.x, B as u64), &fv(&d.y, B as u64)));
+    fentry!(v, D, B, format!("{t} rem_euclid ref.ref"), FXY, |c| (&c.fx::<R, B>()).rem_euclid(&c.fy::<R, B>()), |d| pre_euclid(&fv(&d.x, B as u64), &fv(&d.y, B as u64)));
+    fentry!(v, D, B, format!("{t} rem_euclid val.ref"), FXY, |c| c.fx::<R, B>().rem_euclid(&c.fy::<R, B>()), |d| pre_euclid(&fv(&d.x, B as u64), &fv(&d.y, B as u64)));
+    fentry!(v, D, B, format!("{t} div_rem_euclid ref.ref"), FXY, |c| (&c.fx::<R, B>()).div_rem_euclid(&c.fy::<R, B>()), |d| pre_euclid(&fv(&d.x, B as u64), &fv(&d.y, B as u64)));
+    fentry!(v, D, B, format!("{t} div_rem_euclid val.val"), FXY, |c| c.fx::<R, B>().div_rem_euclid(c.fy::<R, B>()), |d| pre_euclid(&fv(&d.x, B as u64), &fv(&d.y, B as u64)));
+    fentry!(v, D, B, format!("{t}::inv"), FX, |c| Inverse::inv(c.fx::<R, B>()), |d| { let x = fv(&d.x, B as u64); pre_div(&int_fv(&BigInt::from(1), B as u64), &x, x.prec, B as u64) });
+    fentry!(v, D, B, format!("&{t}::inv"), FX, |c| Inverse::inv(&c.fx::<R, B>()), |d| { let x = fv(&d.x, B as u64); pre_div(&int_fv(&BigInt::from(1), B as u64), &x, x.prec, B as u64) });
+    {
+        f_prim_forms!(v, t, R, B, "u8", U0.x().k(), |c| c.k128() as u8, |e| BigInt::from(e.k128() as u8));
+    }
+    {
+        f_prim_forms!(v, t, R, B, "i64", U0.x().k(), |c| c.k128() as i64, |e| BigInt::from(e.k128() as i64));
+    }
+    {
+        f_prim_forms!(v, t, R, B, "u128", U0.x().k(), |c| c.k128() as u128, |e| BigInt::from(e.k128() as u128));
+    }
+    {
+        f_prim_forms!(v, t, R, B, "UBig", U0.x().a(1), |c| c.ua(), |e| BigInt::from(e.a.mag.big()));
+    }
+    {
+        f_prim_forms!(v, t, R, B, "IBig", U0.x().a(2), |c| c.ia(), |e| e.a.big());
+    }
+    // ---- functions (FBig methods)
+    const M: &str = "float: sqr, cubic, sqrt, exp, ln, powers (FBig methods)";
+    fentry!(v, M, B, format!("{t}::sqr"), FX, |c| c.fx::<R, B>().sqr(), |d| { let x = fv(&d.x, B as u64); pre_arith(&x, &x, x.prec, false) });
+    fentry!(v, M, B, format!("{t}::cubic"), FX, |c| c.fx::<R, B>().cubic(), |d| { let x = fv(&d.x, B as u64); pre_arith(&x, &x, x.prec, false) });
+    fentry!(v, M, B, format!("{t}::sqrt"), FX, |c| SquareRoot::sqrt(&c.fx::<R, B>()), |d| { let x = fv(&d.x, B as u64); pre_sqrt(&x, x.prec) });
+    fentry!(v, M, B, format!("{t}::exp"), FX, |c| c.fx::<R, B>().exp(), |d| { let x = fv(&d.x, B as u64); pre_exp(&x, x.prec) });
+    fentry!(v, M, B, format!("{t}::exp_m1"), FX, |c| c.fx::<R, B>().exp_m1(), |d| { let x = fv(&d.x, B as u64); pre_exp(&x, x.prec) });
+    fentry!(v, M, B, format!("{t}::ln"), FX, |c| c.fx::<R, B>().ln(), |d| { let x = fv(&d.x, B as u64); pre_ln(&x, x.prec, false) });
+    fentry!(v, M, B, format!("{t}::ln_1p"), FX, |c| c.fx::<R, B>().ln_1p(), |d| { let x = fv(&d.x, B as u64); pre_ln(&x, x.prec, true) });
+    fentry!(v, M, B, format!("{t}::powi"), U0.x().bexp(), |c| c.fx::<R, B>().powi(c.ib()), |d| { let x = fv(&d.x, B as u64); pre_powi(&x, &d.b, x.prec) });
+    fentry!(v, M, B, format!("{t}::powf"), FXY, |c| c.fx::<R, B>().powf(&c.fy::<R, B>()), |d| { let (x, y) = (fv(&d.x, B as u64), fv(&d.y, B as u64)); pre_powf(&x, &y, ctx_max(&x, &y)) });
+    // ---- Context methods
+    const C: &str = "float: Context methods";
+    fentry!(v, C, B, format!("{ct}::add"), CXY, |c| c.cx::<R>().add(&c.rx::<B>(), &c.ry::<B>()), |d| pre_arith(&fv(&d.x, B as u64), &fv(&d.y, B as u64), d.p as u64, true));
+    fentry!(v, C, B, format!("{ct}::sub"), CXY, |c| c.cx::<R>().sub(&c.rx::<B>(), &c.ry::<B>()), |d| pre_arith(&fv(&d.x, B as u64), &fv(&d.y, B as u64), d.p as u64, true));
+    fentry!(v, C, B, format!("{ct}::mul"), CXY, |c| c.cx::<R>().mul(&c.rx::<B>(), &c.ry::<B>()), |d| pre_arith(&fv(&d.x, B as u64), &fv(&d.y, B as u64), d.p as u64, false));
+    fentry!(v, C, B, format!("{ct}::div"), CXY, |c| c.cx::<R>().div(&c.rx::<B>(), &c.ry::<B>()), |d| pre_div(&fv(&d.x, B as u64), &fv(&d.y, B as u64), d.p as u64, B as u64));
+    fentry!(v, C, B, format!("{ct}::rem"), CXY, |c| c.cx::<R>().rem(&c.rx::<B>(), &c.ry::<B>()), |d| pre_rem(&fv(&d.x, B as u64), &fv(&d.y, B as u64)));
+    fentry!(v, C, B, format!("{ct}::inv"), CX, |c| c.cx::<R>().inv(&c.rx::<B>()), |d| pre_div(&int_fv(&BigInt::from(1), B as u64), &fv(&d.x, B as u64), d.p as u64, B as u64));
+    fentry!(v, C, B, format!("{ct}::sqr"), CX, |c| c.cx::<R>().sqr(&c.rx::<B>()), |d| { let x = fv(&d.x, B as u64); pre_arith(&x, &x, d.p as u64, false) });
+    fentry!(v, C, B, format!("{ct}::cubic"), CX, |c| c.cx::<R>().cubic(&c.rx::<B>()), |d| { let x = fv(&d.x, B as u64); pre_arith(&x, &x, d.p as u64, false) });
+    fentry!(v, C, B, format!("{ct}::sqrt"), CX, |c| c.cx::<R>().sqrt(&c.rx::<B>()), |d| pre_sqrt(&fv(&d.x, B as u64), d.p as u64));
+    fentry!(v, C, B, format!("{ct}::exp"), CX, |c| c.cx::<R>().exp(&c.rx::<B>()), |d| pre_exp(&fv(&d.x, B as u64), d.p as u64));
+    fentry!(v, C, B, format!("{ct}::exp_m1"), CX, |c| c.cx::<R>().exp_m1(&c.rx::<B>()), |d| pre_exp(&fv(&d.x, B as u64), d.p as u64));
+    fentry!(v, C, B, format!("{ct}::ln"), CX, |c| c.cx::<R>().ln(&c.rx::<B>()), |d| pre_ln(&fv(&d.x, B as u64), d.p as u64, false));
+    fentry!(v, C, B, format!("{ct}::ln_1p"), CX, |c| c.cx::<R>().ln_1p(&c.rx::<B>()), |d| pre_ln(&fv(&d.x, B as u64), d.p as u64, true));
+    fentry!(v, C, B, format!("{ct}::powi"), U0.x().p().bexp(), |c| c.cx::<R>().powi(&c.rx::<B>(), c.ib()), |d| pre_powi(&fv(&d.x, B as u64), &d.b, d.p as u64));
+    fentry!(v, C, B, format!("{ct}::powf"), CXY, |c| c.cx::<R>().powf(&c.rx::<B>(), &c.ry::<B>()), |d| pre_powf(&fv(&d.x, B as u64), &fv(&d.y, B as u64), d.p as u64));
+    fentry!(v, C, B, format!("{ct}::convert_int"), U0.a(2).p(), |c| c.cx::<R>().convert_int::<B>(c.ia()), |_d| ret());
+    fentry!(v, C, B, format!("{ct}::new / max / precision / is_limited"), U0.p().n(NK::Prec), |c| { let (x, y) = (Context::<R>::new(c.p as usize), Context::<R>::new(c.nu())); (Context::max(x, y).precision(), x.precision()) }, |_d| ret());
+    // ---- rounding to integers
+    const Rr: &str = "float: trunc, fract, ceil, floor, round, to_int";
+    fentry!(v, Rr, B, format!("{t}::trunc"), FX, |c| c.fx::<R, B>().trunc(), |d| pre_round(&fv(&d.x, B as u64)));
+    fentry!(v, Rr, B, format!("{t}::fract"), FX, |c| c.fx::<R, B>().fract(), |d| pre_round(&fv(&d.x, B as u64)));
+    fentry!(v, Rr, B, format!("{t}::ceil"), FX, |c| c.fx::<R, B>().ceil(), |d| pre_round(&fv(&d.x, B as u64)));
+    fentry!(v, Rr, B, format!("{t}::floor"), FX, |c| c.fx::<R, B>().floor(), |d| pre_round(&fv(&d.x, B as u64)));
+    fentry!(v, Rr, B, format!("{t}::round"), FX, |c| c.fx::<R, B>().round(), |d| pre_round(&fv(&d.x, B as u64)));
+    fentry!(v, Rr, B, format!("{t}::to_int"), FX, |c| c.fx::<R, B>().to_int(), |d| pre_round(&fv(&d.x, B as u64)));
+    fentry!(v, Rr, B, format!("Repr<{B}>::to_int"), FX, |c| c.rx::<B>().to_int(), |d| pre_round(&fv(&d.x, B as u64)));
+    // split_at_point has no "# Panics" section
+    fentry!(v, Rr, B, format!("{t}::split_at_point"), FX, |c| c.fx::<R, B>().split_at_point(), |d| pre_digits(&fv(&d.x, B as u64)));
+    // ---- conversions
+    const V: &str = "float: conversions";
+    fentry!(v, V, B, format!("{t}::to_f32"), FX, |c| c.fx::<R, B>().to_f32(), |d| { let x = fv(&d.x, B as u64); Pre::new().unspec(x.extreme(), L_EXT).done() });
+    fentry!(v, V, B, format!("{t}::to_f64"), FX, |c| c.fx::<R, B>().to_f64(), |d| { let x = fv(&d.x, B as u64); Pre::new().unspec(x.extreme(), L_EXT).done() });
+    fentry!(v, V, B, format!("Repr<{B}>::to_f32"), FX, |c| c.rx::<B>().to_f32(), |d| { let x = fv(&d.x, B as u64); Pre::new().unspec(x.extreme(), L_EXT).done() });
+    fentry!(v, V, B, format!("Repr<{B}>::to_f64"), FX, |c| c.rx::<B>().to_f64(), |d| { let x = fv(&d.x, B as u64); Pre::new().unspec(x.extreme(), L_EXT).done() });
+    fentry!(v, V, B, format!("IBig::try_from({t})"), FX, |c| IBig::try_from(c.fx::<R, B>()), |d| { let x = fv(&d.x, B as u64); Pre::new().unspec(x.extreme(), L_EXT).unspec(x.far(), L_FAR).heavy(x.far()).done() });
+    fentry!(v, V, B, format!("UBig::try_from({t})"), FX, |c| UBig::try_from(c.fx::<R, B>()), |d| { let x = fv(&d.x, B as u64); Pre::new().unspec(x.extreme(), L_EXT).unspec(x.far(), L_FAR).heavy(x.far()).done() });
+    fentry!(v, V, B, format!("{t}::from(UBig)"), U0.a(1), |c| FBig::<R, B>::from(c.ua()), |_d| ret());
+    fentry!(v, V, B, format!("{t}::from(IBig)"), U0.a(2), |c| FBig::<R, B>::from(c.ia()), |_d| ret());
+    fentry!(v, V, B, format!("{t}::from(i64) / from(u128)"), U0.k(), |c| (FBig::<R, B>::from(c.k128() as i64), FBig::<R, B>::from(c.k128() as u128)), |_d| ret());
+    fentry!(v, V, B, format!("{t}::from_parts"), U0.a(2).k(), |c| FBig::<R, B>::from_parts(c.ia(), c.k128() as isize), |_d| ret());
+    fentry!(v, V, B, format!("{t}::from_parts_const"), U0.a(2).k().n(NK::Prec), |c| FBig::<R, B>::from_parts_const(if c.a.neg { Sign::Negative } else { Sign::Positive }, low128(&c.a.mag), c.k128() as isize, if c.n == 0 { None } else { Some(c.nu()) }), |d| Pre::new().unspec((d.k128() as isize).unsigned_abs() > (1 << 60), L_EXT).done());
+    fentry!(v, V, B, format!("Repr<{B}>::new / into_parts"), U0.a(2).k(), |c| Repr::<B>::new(c.ia(), c.k128() as isize).into_parts(), |d| Pre::new().unspec((d.k128() as isize).unsigned_abs() > (1 << 60), L_EXT).done());
+    fentry!(v, V, B, format!("{t}::with_precision"), U0.x().n(NK::Prec), |c| c.fx::<R, B>().with_precision(c.nu()), |d| pre_passive(&fv(&d.x, B as u64)));
+    fentry!(v, V, B, format!("{t}::with_rounding"), FX, |c| c.fx::<R, B>().with_rounding::<mode::Down>(), |_d| ret());
+    fentry!(v, V, B, format!("{t}::to_decimal"), FX, |c| c.fx::<R, B>().to_decimal(), |d| pre_with_base(&fv(&d.x, B as u64), B as u64, 10, None));
+    fentry!(v, V, B, format!("{t}::to_binary"), FX, |c| c.fx::<R, B>().to_binary(), |d| pre_with_base(&fv(&d.x, B as u64), B as u64, 2, None));
+    fentry!(v, V, B, format!("{t}::with_base::<3>"), FX, |c| c.fx::<R, B>().with_base::<3>(), |d| pre_with_base(&fv(&d.x, B as u64), B as u64, 3, None));
+    fentry!(v, V, B, format!("{t}::with_base::<16>"), FX, |c| c.fx::<R, B>().with_base::<16>(), |d| pre_with_base(&fv(&d.x, B as u64), B as u64, 16, None));
+    fentry!(v, V, B, format!("{t}::with_base::<100>"), FX, |c| c.fx::<R, B>().with_base::<100>(), |d| pre_with_base(&fv(&d.x, B as u64), B as u64, 100, None));
+    fentry!(v, V, B, format!("{t}::with_base_and_precision::<10>"), U0.x().n(NK::Prec), |c| c.fx::<R, B>().with_base_and_precision::<10>(c.nu()), |d| pre_with_base(&fv(&d.x, B as u64), B as u64, 10, Some(d.n)));
+    fentry!(v, V, B, format!("{t}::with_base_and_precision::<2>"), U0.x().n(NK::Prec), |c| c.fx::<R, B>().with_base_and_precision::<2>(c.nu()), |d| pre_with_base(&fv(&d.x, B as u64), B as u64, 2, Some(d.n)));
+    fentry!(v, V, B, format!("{t}::with_base_and_precision::<7>"), U0.x().n(NK::Prec), |c| c.fx::<R, B>().with_base_and_precision::<7>(c.nu()), |d| pre_with_base(&fv(&d.x, B as u64), B as u64, 7, Some(d.n)));
+    // ---- inspection, sign, comparison
+    const S: &str = "float: sign, comparison, inspection, shifts";
+    fentry!(v, S, B, format!("{t}::ulp"), FX, |c| c.fx::<R, B>().ulp(), |d| { let x = fv(&d.x, B as u64); Pre::new().unspec(x.extreme(), L_EXT).must(x.prec == 0, L_UNLIM, M_UNLIM).unspec(x.inf != 0, L_INFU).done() });
+    fentry!(v, S, B, format!("{t}::precision/digits/context"), FX, |c| { let x = c.fx::<R, B>(); (x.precision(), x.digits(), x.context().precision()) }, |d| pre_passive(&fv(&d.x, B as u64)));
+    fentry!(v, S, B, format!("Repr<{B}>::digits/digits_ub/digits_lb"), FX, |c| { let x = c.rx::<B>(); (x.digits(), x.digits_ub(), x.digits_lb()) }, |d| pre_passive(&fv(&d.x, B as u64)));
+    fentry!(v, S, B, format!("Repr<{B}>::is_zero/is_one/is_int/is_finite/is_infinite/sign"), FX, |c| { let x = c.rx::<B>(); (x.is_zero(), x.is_one(), (x.is_finite(), x.is_infinite(), x.sign())) }, |d| { let x = fv(&d.x, B as u64); Pre::new().unspec(x.extreme(), L_EXT).done() });
+    fentry!(v, S, B, format!("Repr<{B}>::is_int"), FX, |c| c.rx::<B>().is_int(), |d| pre_passive(&fv(&d.x, B as u64)));
+    fentry!(v, S, B, format!("{t}::repr/into_repr/significand/exponent"), FX, |c| { let x = c.fx::<R, B>(); let e = x.repr().exponent(); (x.repr().significand().clone(), e, x.into_repr()) }, |_d| ret());
+    fentry!(v, S, B, format!("-{t}"), FX, |c| -c.fx::<R, B>(), |d| pre_passive(&fv(&d.x, B as u64)));
+    fentry!(v, S, B, format!("-&{t}"), FX, |c| -&c.fx::<R, B>(), |d| pre_passive(&fv(&d.x, B as u64)));
+    fentry!(v, S, B, format!("-Repr<{B}>"), FX, |c| -c.rx::<B>(), |d| pre_passive(&fv(&d.x, B as u64)));
+    fentry!(v, S, B, format!("{t}::abs"), FX, |c| Abs::abs(c.fx::<R, B>()), |d| pre_passive(&fv(&d.x, B as u64)));
+    fentry!(v, S, B, format!("{t}::signum"), FX, |c| c.fx::<R, B>().signum(), |d| pre_passive(&fv(&d.x, B as u64)));
+    fentry!(v, S, B, format!("{t}::sign/is_positive/is_negative"), FX, |c| { let x = c.fx::<R, B>(); (x.sign(), Signed::is_positive(&x), Signed::is_negative(&x)) }, |d| pre_passive(&fv(&d.x, B as u64)));
+    fentry!(v, S, B, format!("{t} * Sign / Sign * {t} / *= Sign"), U0.x().n(NK::Sel), |c| { let s = if c.n % 2 == 0 { Sign::Positive } else { Sign::Negative }; let mut z = c.fx::<R, B>(); z *= s; (c.fx::<R, B>() * s, s * c.fx::<R, B>(), z) }, |d| pre_passive(&fv(&d.x, B as u64)));
+    // equality and ordering are the operations documented to work with infinities
+    fentry!(v, S, B, format!("{t} == / cmp / partial_cmp"), FXY, |c| { let (x, y) = (c.fx::<R, B>(), c.fy::<R, B>()); (x == y, x.cmp(&y), x.partial_cmp(&y)) }, |d| Pre::new().unspec(any_extreme(&[&fv(&d.x, B as u64), &fv(&d.y, B as u64)]), L_EXT).done());
+    fentry!(v, S, B, format!("{t} == / partial_cmp FBig<Down,{B}>"), FXY, |c| { let (x, y) = (c.fx::<R, B>(), c.fy::<mode::Down, B>()); (x == y, x.partial_cmp(&y)) }, |d| Pre::new().unspec(any_extreme(&[&fv(&d.x, B as u64), &fv(&d.y, B as u64)]), L_EXT).done());
+    fentry!(v, S, B, format!("Repr<{B}> == / cmp"), FXY, |c| { let (x, y) = (c.rx::<B>(), c.ry::<B>()); (x == y, x.cmp(&y)) }, |d| Pre::new().unspec(any_extreme(&[&fv(&d.x, B as u64), &fv(&d.y, B as u64)]), L_EXT).done());
+    fentry!(v, S, B, format!("{t}::abs_cmp"), FXY, |c| c.fx::<R, B>().abs_cmp(&c.fy::<R, B>()), |d| Pre::new().unspec(any_extreme(&[&fv(&d.x, B as u64), &fv(&d.y, B as u64)]), L_EXT).done());
+    fentry!(v, S, B, format!("{t}::abs_cmp(UBig) / abs_cmp(IBig)"), U0.x().a(2), |c| (c.fx::<R, B>().abs_cmp(&c.ua()), c.fx::<R, B>().abs_cmp(&c.ia()), c.ia().abs_cmp(&c.fx::<R, B>())), |d| { let x = fv(&d.x, B as u64); Pre::new().unspec(x.extreme(), L_EXT).unspec(x.inf != 0, L_INFU).done() });
+    fentry!(v, S, B, format!("{t}::log2_bounds/log2_est"), FX, |c| { let x = c.fx::<R, B>(); let (l, h) = x.log2_bounds(); (l, h, x.log2_est()) }, |d| { let x = fv(&d.x, B as u64); Pre::new().unspec(x.zero || x.inf != 0, "unspecified: log2_bounds of 0 / infinity").done() });
+    fentry!(v, S, B, format!("{t} clone/clone_from/default"), FXY, |c| { let mut x = c.fx::<R, B>().clone(); x.clone_from(&c.fy::<R, B>()); (x, FBig::<R, B>::default()) }, |_d| ret());
+    fentry!(v, S, B, format!("{t} sum/product"), FXY, |c| { let xs = [c.fx::<R, B>(), c.fy::<R, B>()]; (xs.iter().sum::<FBig<R, B>>(), xs.iter().product::<FBig<R, B>>()) }, |d| { let (x, y) = (fv(&d.x, B as u64), fv(&d.y, B as u64)); let p = ctx_max(&x, &y); Pre::new().unspec(any_extreme(&[&x, &y]), L_EXT).unspec(any_inf(&[&x, &y]), "unspecified: sum / product over infinities").unspec(p == 0 && any_far(&[&x, &y]), L_FAR).heavy(p == 0).done() });
+    // shifts move the exponent: overflow of the exponent is a documented panic
+    fentry!(v, S, B, format!("{t} << isize"), U0.x().k(), |c| c.fx::<R, B>() << (c.k128() as isize), |d| pre_shift(&fv(&d.x, B as u64), d.k128() as isize as i128, 1));
+    fentry!(v, S, B, format!("{t} >> isize"), U0.x().k(), |c| c.fx::<R, B>() >> (c.k128() as isize), |d| pre_shift(&fv(&d.x, B as u64), -(d.k128() as isize as i128), 1));
+    fentry!(v, S, B, format!("{t} <<= isize"), U0.x().k(), |c| { let mut x = c.fx::<R, B>(); x <<= c.k128() as isize; x }, |d| pre_shift(&fv(&d.x, B as u64), d.k128() as isize as i128, 1));
+    fentry!(v, S, B, format!("{t} >>= isize"), U0.x().k(), |c| { let mut x = c.fx::<R, B>(); x >>= c.k128() as isize; x }, |d| pre_shift(&fv(&d.x, B as u64), -(d.k128() as isize as i128), 2));
+    // ---- text
+    const T: &str = "float: printing";
+    fmt_entries!(v, "float", T, B as u64, t, FX, |c| c.fx::<R, B>(), |d| pre_digits(&fv(&d.x, B as u64)), "{}" "{:?}" "{:#?}" "{:e}" "{:E}" "{:.3}" "{:.0}" "{:20.5}" "{:+}" "{:<40}" "{:^+15.2e}" "{:030}" "{:.100}" "{:#.3?}");
+    fmt_entries!(v, "float", T, B as u64, format!("Repr<{B}>"), FX, |c| c.rx::<B>(), |d| pre_digits(&fv(&d.x, B as u64)), "{}" "{:?}" "{:#?}" "{:e}" "{:.2}");
+    fentry!(v, T, B, format!("{t}::to_string"), FX, |c| c.fx::<R, B>().to_string(), |d| pre_digits(&fv(&d.x, B as u64)));
+    const P: &str = "float: parsing";
+    fentry!(v, P, B, format!("{t}::from_str"), U0.s(SK::Float), |c| FBig::<R, B>::from_str(&c.s), |d| pre_parse_float(&d.s, B as u64));
+    fentry!(v, P, B, format!("{t}::from_str_native"), U0.s(SK::Float), |c| FBig::<R, B>::from_str_native(&c.s), |d| pre_parse_float(&d.s, B as u64));
+    fentry!(v, P, B, format!("Repr<{B}>::from_str_native"), U0.s(SK::Float), |c| Repr::<B>::from_str_native(&c.s), |d| pre_parse_float(&d.s, B as u64));
+    fentry!(v, P, B, format!("str::parse::<{t}>"), U0.s(SK::Float), |c| c.s.parse::<FBig<R, B>>(), |d| pre_parse_float(&d.s, B as u64));
+}
+
+/// `x << k` adds `times`·k to the exponent of a non-zero finite x
+fn pre_shift(x: &FV, k: i128, times: i128) -> Exp {
+    let moved = x.exp as i128 + k;
+    let moved_all = x.exp as i128 + times * k;
+    let fits = |e: i128| e >= isize::MIN as i128 && e <= isize::MAX as i128;
+    Pre::new()
+        .must(x.inf != 0, L_INF, M_INF)
+        .unspec(x.extreme(), L_EXT)
+        .must(x.finite() && !x.zero && !fits(moved), L_OVER, "")
+        // C15/fbig-shr-assign-shifts-twice: `>>=` subtracts the count twice, so it can overflow although the result fits
+        .known(times == 2 && x.finite() && !x.zero && fits(moved) && !fits(moved_all), "C15/fbig-shr-assign-shifts-twice", On::Panic("overflow"))
+        .unspec(x.finite() && !x.zero && fits(moved) && moved.unsigned_abs() > (1 << 60), L_EXT)
+        .unspec(times == 2 && x.finite() && x.zero && !fits(2 * k), L_EXT)
+        .done()
+}
+
+/// C08/parse-exponent-overflow-panics: the scale fits isize and |scale| > isize::MAX - 4·len - 8
+fn extreme_scale(text: &str, base: u64) -> bool {
+    let t = text.strip_prefix(['+', '-']).unwrap_or(text);
+    let has_prefix = t.starts_with("0x") || t.starts_with("0X");
+    let pos = match base {
+        10 => t.rfind(['e', 'E', '@']),
+        2 => {
+            if has_prefix {
+                t.rfind(['p', 'P', '@'])
+            } else {
+                t.rfind(['b', 'B', '@'])
+            }
+        }
+        8 => t.rfind(['o', 'O', '@']),
+        16 => t.rfind(['h', 'H', '@']),
+        _ => t.rfind('@'),
+    };
+    match pos.and_then(|p| t[p + 1..].parse::<isize>().ok()) {
+        Some(v) => (v as i128).unsigned_abs() + 4 * text.len() as u128 + 8 > isize::MAX as u128,
+        None => false,
+    }
+}
+
+fn pre_parse_float(s: &str, base: u64) -> Exp {
+    Pre::new().known(extreme_scale(s, base), "C08/parse-exponent-overflow-panics", On::Panic("overflow")).done()
+}
+
+/// base-2 only API
+fn float_b2<R: ModeTag>(v: &mut Vec<Op>) {
+    let t = format!("FBig<{},2>", R::MODE.name());
+    const V: &str = "float: conversions";
+    fentry!(v, V, 2, format!("{t}::try_from(f32)"), U0.n(NK::F32), |c| FBig::<R, 2>::try_from(f32::from_bits(c.n as u32)), |_d| ret());
+    fentry!(v, V, 2, format!("{t}::try_from(f64)"), U0.n(NK::F64), |c| FBig::<R, 2>::try_from(f64::from_bits(c.n)), |_d| ret());
+    fentry!(v, V, 2, format!("f32::try_from({t})"), FX, |c| f32::try_from(c.fx::<R, 2>()), |d| { let x = fv(&d.x, 2); Pre::new().unspec(x.extreme(), L_EXT).done() });
+    fentry!(v, V, 2, format!("f64::try_from({t})"), FX, |c| f64::try_from(c.fx::<R, 2>()), |d| { let x = fv(&d.x, 2); Pre::new().unspec(x.extreme(), L_EXT).done() });
+    const T: &str = "float: printing";
+    fmt_entries!(v, "float", T, 2, t, FX, |c| c.fx::<R, 2>(), |d| pre_digits(&fv(&d.x, 2)), "{:b}" "{:#b}" "{:x}" "{:#X}" "{:.3x}" "{:40.10b}");
+}
+
+fn float_b2_repr(v: &mut Vec<Op>) {
+    const V: &str = "float: conversions";
+    fentry!(v, V, 2, "Repr<2>::try_from(f32)", U0.n(NK::F32), |c| Repr::<2>::try_from(f32::from_bits(c.n as u32)), |_d| ret());
+    fentry!(v, V, 2, "Repr<2>::try_from(f64)", U0.n(NK::F64), |c| Repr::<2>::try_from(f64::from_bits(c.n)), |_d| ret());
 }
 
 static CAT: OnceLock<Vec<Op>> = OnceLock::new();
@@ -1720,7 +2252,32 @@ fn krate_label(k: &str) -> &'static str {
     }
 }
 
+/// development aid: C16_SURVEY=1 prints every violating (entry, expectation) once instead of stopping
+/// at the first violation (the exit status is meaningless in that mode)
+fn survey() -> bool {
+    static S: OnceLock<bool> = OnceLock::new();
+    *S.get_or_init(|| std::env::var("C16_SURVEY").is_ok())
+}
+static SURVEYED: Mutex<Option<std::collections::HashSet<String>>> = Mutex::new(None);
+
 fn judge(c: &Case, ctx: &Ctx) -> Out {
+    let mut out = judge_inner(c, ctx);
+    if survey() {
+        if let Verdict::Violation(sig) = &out.verdict {
+            let op = c.op.clone();
+            let exp = index().get(&c.op).map(|&i| (cat()[i].pre)(c).label).unwrap_or("");
+            let key = format!("{op}|{exp}");
+            let mut g = SURVEYED.lock().unwrap();
+            if g.get_or_insert_with(Default::default).insert(key) {
+                eprintln!("SURVEY {}\n       case={}", truncate(sig, 500), truncate(&serde_json::to_string(c).unwrap_or_default(), 700));
+            }
+            out.verdict = Verdict::Pass;
+        }
+    }
+    out
+}
+
+fn judge_inner(c: &Case, ctx: &Ctx) -> Out {
     let mut out = Out::new();
     let op = match index().get(&c.op) {
         Some(&i) => &cat()[i],
@@ -2115,6 +2672,7 @@ fn main() {
     ck.extra("catalogue", json!({"entries": cat().len(), "dashu-int": n_int, "dashu-float": n_float, "dashu-ratio": n_ratio, "dashu-base": n_base, "families": fams}));
 
     ck.sub("int_calls", (30_000, 750_000), || call_strategy(ops_where(|o| o.krate == "int")), judge);
+    ck.sub("float_calls", (24_000, 600_000), || call_strategy(ops_where(|o| o.krate == "float")), judge);
 
     ck.assume("util-linux prlimit (RLIMIT_AS = 4 GiB per worker); /proc/<pid>/stat CPU accounting at 100 ticks/s; a confirmed hang = no answer within 10 s at >= 50 % CPU and none within 30 s in a fresh worker, on a small input");
     ck.assume("debug assertions and overflow checks are ON in the harness build: exponent / index arithmetic that would wrap silently in an ordinary release build is observed here as a panic");
